@@ -157,22 +157,29 @@ Lemma prelude_untouched : forall r d,
   forallb (fun o => negb (touches_last o)) (prelude St r d) = true.
 Proof.
   intros. unfold prelude.
-  destruct (r && isfile St Last d); destruct r; reflexivity.
+  destruct r as [ | | [sP | ]]; simpl; try reflexivity;
+    destruct (isfile St Last d); reflexivity.
 Qed.
 
-Lemma start_good : forall n r d, good n (d_last St d) ->
+(* resume is False, True, or a string that names no existing file *)
+Definition not_path (r : rmode St) : Prop := match r with RPath (Some _) => False | _ => True end.
+
+Lemma not_path_restart : forall r, not_path r -> not_path (restart St r).
+Proof. intros [ | | [sP | ]] H; simpl in *; auto. Qed.
+
+Lemma start_good : forall n r d, not_path r -> good n (d_last St d) ->
   exists j, j <= n /\ start St init r d = Some (st j).
 Proof.
-  intros n r d [H | (j & Hj & H)]; unfold start, isfile; cbn [fget]; rewrite H.
-  - exists 0. split; [lia | ]. rewrite andb_false_r. reflexivity.
-  - destruct r; simpl; [exists j | exists 0]; split; auto; lia.
+  intros n r d Hr [H | (j & Hj & H)]; destruct r as [ | | [sP | ]]; try contradiction;
+    unfold start, isfile; cbn [fget is_res andb]; try rewrite H;
+    first [ exists 0; split; [lia | reflexivity] | exists j; split; [exact Hj | reflexivity] ].
 Qed.
 
-Lemma crashed_good : forall n r d k lost, good n (d_last St d) ->
+Lemma crashed_good : forall n r d k lost, not_path r -> good n (d_last St d) ->
   good n (d_last St (crashed St step init nit (iter_ops St extra) r n d k lost)).
 Proof.
-  intros n r d k lost Hd. unfold crashed, run, crash.
-  destruct (start_good n r d Hd) as (j & Hj & ->). rewrite nit_st.
+  intros n r d k lost Hr Hd. unfold crashed, run, crash.
+  destruct (start_good n r d Hr Hd) as (j & Hj & ->). rewrite nit_st.
   cbn [fst]. unfold settle. cbn [d_last].
   assert (G : good n (d_last St (crash_raw St k lost
                 (prelude St r d ++ fst (loopF (n - j) (st j))) d))).
@@ -183,34 +190,44 @@ Proof.
   rewrite (good_settle n lost _ G). exact G.
 Qed.
 
-Lemma chain_good : forall n cps r0 d, good n (d_last St d) ->
+Lemma chain_good : forall n cps r0 d, not_path r0 -> good n (d_last St d) ->
   good n (d_last St (chain St step init nit (iter_ops St extra) n r0 cps d)).
 Proof.
-  intros n. induction cps as [ | [k lost] t IH]; intros r0 d Hd; simpl; [exact Hd | ].
-  apply IH. now apply crashed_good.
+  intros n. induction cps as [ | [k lost] t IH]; intros r0 d Hr Hd; simpl; [exact Hd | ].
+  apply IH; [now apply not_path_restart | now apply crashed_good].
 Qed.
 
-Lemma run_good : forall n r d, good n (d_last St d) ->
+Lemma run_good : forall n r d, not_path r -> good n (d_last St d) ->
   snd (run St step init nit (iter_ops St extra) r n d) = Ok (st n).
 Proof.
-  intros n r d Hd. unfold run. destruct (start_good n r d Hd) as (j & Hj & ->).
+  intros n r d Hr Hd. unfold run. destruct (start_good n r d Hr Hd) as (j & Hj & ->).
   rewrite nit_st. cbn [snd]. rewrite loop_snd, iter_plus. f_equal. f_equal. lia.
 Qed.
 
 (* ---- the theorems ---- *)
-Theorem resume_equiv : forall n r0 cps d0, d_last St d0 = None ->
-  snd (run St step init nit (iter_ops St extra) true n
+Theorem resume_equiv : forall n r0 cps d0, not_path r0 -> d_last St d0 = None ->
+  snd (run St step init nit (iter_ops St extra) (restart St r0) n
          (chain St step init nit (iter_ops St extra) n r0 cps d0)) = Ok (st n).
-Proof. intros. apply run_good, chain_good. now left. Qed.
+Proof. intros. apply run_good; [now apply not_path_restart | ]. apply chain_good; [assumption | now left]. Qed.
 
-Theorem uninterrupted : forall n r d0, d_last St d0 = None ->
+Theorem uninterrupted : forall n r d0, not_path r -> d_last St d0 = None ->
   snd (run St step init nit (iter_ops St extra) r n d0) = Ok (st n).
-Proof. intros. apply run_good. now left. Qed.
+Proof. intros. apply run_good; [assumption | now left]. Qed.
 
-Theorem disk_invariant : forall n r0 cps d0, d_last St d0 = None ->
+Theorem disk_invariant : forall n r0 cps d0, not_path r0 -> d_last St d0 = None ->
   let d := chain St step init nit (iter_ops St extra) n r0 cps d0 in
   d_last St d = None \/ exists j, j <= n /\ d_last St d = Some (Valid (st j)).
-Proof. intros. apply chain_good. now left. Qed.
+Proof. intros. apply chain_good; [assumption | now left]. Qed.
+
+(* resume = <path of an existing file holding a complete pickle of sP>: every run -- the first one,
+   and every restart with the same argument after any crash chain, on ANY directory -- starts from
+   sP (the file is outside the output directory and never written) and returns the same state *)
+Theorem resume_path_equiv : forall body n sP cps d0,
+  snd (run St step init nit body (RPath (Some sP)) n
+         (chain St step init nit body n (RPath (Some sP)) cps d0))
+  = Ok (Nat.iter (n - nit sP) step sP)
+  /\ snd (run St step init nit body (RPath (Some sP)) n d0) = Ok (Nat.iter (n - nit sP) step sP).
+Proof. intros. unfold run. cbn [start snd]. rewrite !loop_snd. split; reflexivity. Qed.
 
 (* the result of a run depends on the directory only through last.pkl: the log and any stale
    temporary file never influence it *)
@@ -218,26 +235,26 @@ Theorem log_benign : forall body r n d d', d_last St d = d_last St d' ->
   snd (run St step init nit body r n d) = snd (run St step init nit body r n d').
 Proof.
   intros body r n d d' H. unfold run, start, isfile. cbn [fget]. rewrite H.
-  destruct (r && match d_last St d' with Some _ => true | None => false end);
-    [destruct (d_last St d') as [[ | s | s] | ] | ]; reflexivity.
+  destruct r as [ | | [sP | ]]; cbn [is_res andb]; try reflexivity;
+    destruct (d_last St d') as [[ | s | s] | ]; reflexivity.
 Qed.
 
 (* OLD protocol (truncate last.pkl, then write): a kill right after the truncation of the very
    first iteration leaves a directory from which resume raises *)
 Lemma old_protocol_torn :
-  d_last St (crashed St step init nit (iter_ops_old St extra) false 1 (empty_disk St) 7 true) = Some Torn.
+  d_last St (crashed St step init nit (iter_ops_old St extra) RNo 1 (empty_disk St) 7 true) = Some Torn.
 Proof.
-  unfold crashed, run, start. cbn [andb]. rewrite nit_init. cbn [Nat.sub loop fst snd].
-  unfold prelude. cbn [andb app]. unfold iter_ops_old, log_ops, dump_ops. cbn [app].
+  unfold crashed, run, start. cbn [is_res andb]. rewrite nit_init. cbn [Nat.sub loop fst snd].
+  unfold prelude. cbn [is_res andb app]. unfold iter_ops_old, log_ops, dump_ops. cbn [app].
   unfold crash. destruct (extra (step init)); reflexivity.
 Qed.
 
 Theorem old_protocol_stuck :
-  snd (run St step init nit (iter_ops_old St extra) true 1
-         (crashed St step init nit (iter_ops_old St extra) false 1 (empty_disk St) 7 true)) = Stuck.
+  snd (run St step init nit (iter_ops_old St extra) RYes 1
+         (crashed St step init nit (iter_ops_old St extra) RNo 1 (empty_disk St) 7 true)) = Stuck.
 Proof.
   pose proof old_protocol_torn as H.
-  set (D := crashed St step init nit (iter_ops_old St extra) false 1 (empty_disk St) 7 true) in *.
-  unfold run, start, isfile. cbn [fget]. rewrite H. reflexivity.
+  set (D := crashed St step init nit (iter_ops_old St extra) RNo 1 (empty_disk St) 7 true) in *.
+  unfold run, start, isfile. cbn [fget is_res andb]. rewrite H. reflexivity.
 Qed.
 End Proofs.
